@@ -3,9 +3,16 @@ Lemmas.InvMath — helper lemmas for property C01 on the mathematical functions 
 
  §1  a crude magnitude calculus on doubles: `Bnd f k` (`f` finite, `|f| ≤ 2^k` scaled units), propagated through
      `+ − × ÷ fma`, `new_sub`, `TwoFloat − TwoFloat` for ALL magnitudes including the subnormal range;
- §2  `TwoFloat::sqrt` preserves the invariant for EVERY well-formed argument satisfying it: the final raw
-     `new_add y t` (2Sum without renormalisation, which CAN break the invariant near overflow — `C01.new_add_breaks_inv`)
-     only ever sees `|y| ≤ 2^575`, `|t| ≤ 2^575`.
+ §2  `good_sqrt`: `TwoFloat::sqrt` preserves the invariant for EVERY well-formed argument satisfying it.  The final raw
+     `new_add y t` (2Sum without renormalisation, which CAN break the invariant near overflow —
+     `C01.new_add_breaks_inv`) only ever sees `|y| ≤ 2^525`; for `hi ≥ 2^1000` an overflow inside `self − y·y`
+     (e.g. `sqrt(f64::MAX) = NaN`) propagates to the high word; `hi ≤ 2^-890` by magnitudes; in between `sqrt_val`;
+ §3  `good_div_tf_pow2`: `TwoFloat / 2^j` (`j ≤ 52`) preserves the invariant for ALL magnitudes — the subnormal-quotient
+     case that `C01.div_tf_f64_inv_of_normal_quotient` leaves open is settled for power-of-two divisors
+     (`dwdivfp_pow2_int`); instances `/ 2.0` (cosh, sinh, asin, atanh) and `/ 512.0` (exp2);
+ §4  `good_scale`, `good_exp2`: the closing `fast_two_sum (mul_pow2 hi k) (mul_pow2 lo k)` of `exp2` keeps
+     `|lo'| ≤ |hi'|` (multiplying both words by the same double is monotone), hence `exp2` preserves the invariant
+     for every argument, results in the subnormal range and overflow included.
 -/
 import TFV.Lemmas.SqrtBound
 import TFV.Lemmas.DivInv
